@@ -229,6 +229,8 @@ def oracle_commands(scn, res):
             break
         if scn.get("reference_valid_until") is not None and ci == scn["reference_valid_until"]:
             sure = len(want)
+        if e.get("cmds_only_if_returned") and res["calls"][ci]["out"].startswith("throw"):
+            continue              # (a write that failed part-way: no complete line reached the peer - and none may have)
         want += [canon_line(c) for c in e["cmds"]]
         if res["calls"][ci]["out"] in ("blocked", "CRASH"):
             break
@@ -1396,6 +1398,35 @@ def fam_greetings(rng, n, dist):
     return out
 
 
+def fam_interrupted(rng, n, dist):
+    """a command line far larger than the socket buffers, written to a server that takes its commands slowly, in a process
+    whose signal handlers do not restart system calls: the write is interrupted part-way. The call may fail - but if it
+    reports success, what the peer received is the line, once (a write resumed from its first byte puts a prefix of the
+    line in front of the line). Signals are outside the protocol model: the comparison with the model ends at that call."""
+    out = []
+    for i in range(n):
+        b = S.Builder(rng, *rng.choice(ALL_METHODS))
+        b.connect(login=None)
+        b.sessions[-1]["ctl_rcvbuf"] = 16384
+        b.sessions[-1]["ctl_read_delay_s"] = 0.5
+        b.sessions[-1]["idle_timeout"] = 30.0
+        k0 = len(b.calls)
+        b.add_call(("Z", 2, b.mode), kind="M")
+        arg = bytes(rng.choice(b"abcdefghij/._-") for _ in range(4096)) * (1536 + i)          # about 6 MiB
+        b.cur.append(P.reaction([b.m(250, "cwd")]))
+        b.add_call(("S", b"CWD", arg), cmds=[b"CWD " + arg], replies=[], may_throw=True, cmds_only_if_returned=True, check_open=False,
+                   reply_optional=True)
+        b.add_call(("Z", False, b.mode), kind="M")
+        b.add_call(("X", False), open_after=False, may_throw=True, check_open=True)
+        b.connected = False
+        dist.add("interrupted:command-line-of-megabytes-written-under-non-restarting-signals")
+        scn = b.scenario()
+        scn["skip_corr_from"] = k0
+        scn["call_timeout"] = 40.0
+        out.append(scn)
+    return out
+
+
 def fam_linelen(rng, n, dist):
     """command lines of every length in windows around 128, 256, 512, 1024, 2048, 4096, 8192, 16384: each one line, each
     ended by CR LF, the next command a line of its own"""
@@ -1990,7 +2021,7 @@ def fam_dispatch(rng, n, dist):
 
 ORACLES.update(tls=oracle_tls, reuse=oracle_reuse, endpoints=oracle_endpoints, aggregates=oracle_aggregates)
 
-FAMILIES = dict(bursts=lambda r, n, d, th: fam_bursts(r, n, d), greetings=lambda r, n, d, th: fam_greetings(r, n, d), linelen=lambda r, n, d, th: fam_linelen(r, n, d), tlsplain=lambda r, n, d, th: fam_tlsplain(r, n, d), mixed=lambda rng, n, dist, th: gen_mixed(rng, "quick", dist, n), observers=lambda r, n, d, th: fam_observers(r, n, d),
+FAMILIES = dict(interrupted=lambda r, n, d, th: fam_interrupted(r, n, d), bursts=lambda r, n, d, th: fam_bursts(r, n, d), greetings=lambda r, n, d, th: fam_greetings(r, n, d), linelen=lambda r, n, d, th: fam_linelen(r, n, d), tlsplain=lambda r, n, d, th: fam_tlsplain(r, n, d), mixed=lambda rng, n, dist, th: gen_mixed(rng, "quick", dist, n), observers=lambda r, n, d, th: fam_observers(r, n, d),
                 abor=lambda r, n, d, th: fam_abor(r, n, d), downloads=fam_downloads, uploads=fam_uploads, ascii=fam_ascii, faults=fam_faults,
                 refusals=lambda r, n, d, th: fam_refusals(r, n, d), cancel=lambda r, n, d, th: fam_cancel(r, n, d),
                 args=lambda r, n, d, th: fam_args(r, n, d), tls=lambda r, n, d, th: fam_tls(r, n, d),
@@ -2001,7 +2032,7 @@ FAMILIES = dict(bursts=lambda r, n, d, th: fam_bursts(r, n, d), greetings=lambda
 PROPS = {
     # id: families with their share of the scenario budget, correspondence projections, oracles
     "C02": dict(fam=[("mixed", 5), ("abor", 2), ("refusals", 1), ("tls", 1)], proj=["out", "state", "wire"], oracles=["lockstep", "abor_order", "aggregates"]),
-    "C09": dict(fam=[("args", 4), ("mixed", 2), ("reconnect", 2), ("linelen", 1)], proj=["out", "wire"], oracles=["commands"]),
+    "C09": dict(fam=[("args", 4), ("mixed", 2), ("reconnect", 2), ("linelen", 1), ("interrupted", 0)], proj=["out", "wire"], oracles=["commands"]),
     "C10": dict(fam=[("mixed", 6), ("args", 1), ("refusals", 1), ("tls", 2), ("typefault", 1)], proj=["out", "state", "wire"], oracles=["commands", "state", "aggregates"]),
     "C14": dict(fam=[("observers", 5), ("mixed", 2)], proj=["out", "obs"], oracles=["observers", "terminates", "commands"], variant="asan"),
     "C03": dict(fam=[("downloads", 6), ("mixed", 1), ("ascii", 1)], proj=["out", "io"], oracles=["transfers"]),
@@ -2028,7 +2059,7 @@ def generate(prop, rng, tier, dist):
     wsum = sum(w for _, w in fams)
     scns = []
     for name, w in fams:
-        n = max(4, total * w // wsum)
+        n = max(4, total * w // wsum) if w else 2          # (weight 0: a fixed pair of scenarios)
         scns += FAMILIES[name](rng, n, dist, tier == "thorough")
     return scns
 
